@@ -68,6 +68,11 @@ func fixedTables() []table {
 		{Entries: []entry{e("/a/b", 1), e("/ab", 65536), e("/a", 100), e("/", 2)}},
 		{Entries: []entry{e("/b", 4096), e("/a/b", 100)}},
 		{Entries: []entry{e("/", 65536), e("/a", 1), e("/a/b", 4096), e("/a/", 2), e("/ab", 100)}},
+		// scopes written in another letter case than the requests use (path
+		// matching ignores letter case): the longest matching scope still wins
+		{Entries: []entry{e("/a", 4096), e("/A/b", 2)}},
+		{Entries: []entry{e("/", 65536), e("/A", 100), e("/a/B", 1), e("/Ab", 4096)}},
+		{Entries: []entry{e("/A/B", 100), e("/a", 1), e("/B", 2)}},
 	}
 	return ts
 }
@@ -110,8 +115,9 @@ func (t table) render() string {
 // applicable is the reference model: the limit(s) configured for the longest
 // scope that is a prefix of the request path. ok=false: no scope matches.
 func (t table) applicable(path string) (scope string, allowed []int64, ok bool) {
+	fold := strings.ToLower // scopes match without regard to letter case
 	for _, en := range t.Entries {
-		if en.Scope == "/" || strings.HasPrefix(path, en.Scope) {
+		if en.Scope == "/" || strings.HasPrefix(fold(path), fold(en.Scope)) {
 			if !ok || len(en.Scope) > len(scope) {
 				scope, ok = en.Scope, true
 			}
@@ -126,7 +132,7 @@ func (t table) applicable(path string) (scope string, allowed []int64, ok bool) 
 	seen := map[int64]bool{}
 	for i := len(t.Entries) - 1; i >= 0; i-- {
 		en := t.Entries[i]
-		if en.Scope == scope && !seen[en.Size] {
+		if fold(en.Scope) == fold(scope) && !seen[en.Size] {
 			seen[en.Size] = true
 			allowed = append(allowed, en.Size)
 		}
@@ -138,7 +144,7 @@ func (t table) applicable(path string) (scope string, allowed []int64, ok bool) 
 func (t table) otherLimits(scope string) []int64 {
 	var out []int64
 	for _, en := range t.Entries {
-		if en.Scope != scope {
+		if !strings.EqualFold(en.Scope, scope) {
 			out = append(out, en.Size)
 		}
 	}
